@@ -14,7 +14,9 @@ use vcore::{Cfg, Check, Cx, Finding, Meta, SUB_SETUP, Tier, Value, Violation, js
 
 mod cycctx;
 mod model;
+mod mutc;
 use cycctx::{CCase, CUnit};
+use mutc::{MCase, MUnit};
 use model::{CYCLE_FORMS, Case, Expect, FORMS, Family, dags};
 
 #[derive(Clone, Context)]
@@ -209,6 +211,7 @@ fn slices(tier: Tier) -> Vec<Slice> {
 enum AnyUnit {
     Graph(Unit),
     CycCtx(CUnit),
+    Mut(MUnit),
 }
 
 fn unit_table(tier: Tier) -> Vec<AnyUnit> {
@@ -218,6 +221,7 @@ fn unit_table(tier: Tier) -> Vec<AnyUnit> {
         if s.n > 3 && !cyc_done {
             // after the complete n <= 3 part, before the large slices
             out.extend(cycctx::units(tier == Tier::Thorough).into_iter().map(AnyUnit::CycCtx));
+            out.extend(mutc::units(tier == Tier::Thorough).into_iter().map(AnyUnit::Mut));
             cyc_done = true;
         }
         let total = model::DAG_COUNTS[s.n];
@@ -729,6 +733,141 @@ fn normalise(report: &str) -> String {
     out
 }
 
+// ------------------------------------------------------------------ mut
+
+fn mcase_json(c: &MCase) -> Value {
+    let kinds: String = (0..c.n).map(|i| if c.is_fn(i) { 'F' } else { 'C' }).collect();
+    let mut edges = vec![];
+    for i in 0..c.n {
+        for j in 0..c.n {
+            if c.dep(i, j) {
+                edges.push(format!("{i}->{j}"));
+            }
+        }
+    }
+    let mut by_symbol: Vec<(usize, String)> = (0..=c.n)
+        .map(|r| (c.sigma[r], format!("{}={}", if r == c.n { "L".to_string() } else { format!("X{r}") }, c.name(r))))
+        .collect();
+    by_symbol.sort();
+    json!({
+        "family": "mut",
+        "n": c.n,
+        "container": mutc::CONTAINERS[c.container],
+        "edges": edges,
+        "kinds": kinds,
+        "access_to_container": c.access.iter().map(|a| mutc::ACC[*a]).collect::<Vec<_>>(),
+        "has_mutating_edge": c.has_mutating_edge(),
+        "mutate_through_local_alias": c.alias,
+        "container_declared_at": c.lpos,
+        "symbol_order": by_symbol.into_iter().map(|x| x.1).collect::<Vec<_>>(),
+        "name_set": c.set,
+        "expect": "Accept",
+        "pkg.roto": c.source(),
+        "m.roto": "",
+    })
+}
+
+fn call_u64(p: &mut Package<NoCtx>, name: &str) -> Result<u64, String> {
+    match catch(|| p.get_function::<fn() -> u64>(name)) {
+        Ok(Ok(f)) => Ok(f.call()),
+        Ok(Err(e)) => Err(format!("get_function: {e}")),
+        Err(e) => Err(format!("get_function panicked: {e}")),
+    }
+}
+
+/// Oracle of a mut case: compiles; every constant's mark is logged once, after
+/// the marks of the constants it reaches (the container included); every probe
+/// returns the reference value, on the first and on the second round of calls.
+fn run_mcase(env: &Plain, c: &MCase, sub: u64, cx: &mut Cx) -> Option<u64> {
+    let src = c.source();
+    cx.states(1);
+    let key = fnv_str(&format!("mut|{src}"));
+    if (0..c.n).any(|i| c.access[i] != 0) {
+        cx.nontrivial(key);
+    }
+    if key % 509 == 0 && c.n >= 2 {
+        cx.sample(mcase_json(c));
+    }
+    cx.count(if c.has_mutating_edge() { "cases:mut:with_mutating_edge" } else { "cases:mut:read_only" }, 1);
+    cx.set("mut_sigma", mix(c.n as u64, c.sigma.iter().fold(0, |a, x| a * 8 + *x as u64)));
+    host::clear_log();
+    cx.transitions(1);
+    cx.validated(1);
+    let compiled = env.compile(&src, "");
+    let log = host::take_log();
+    let mut p = match compiled {
+        Compiled::Panic(msg) => {
+            cx.violation("panic", sub, mcase_json(c), json!("Accept without a panic"), json!(msg));
+            return None;
+        }
+        Compiled::Report(rep, _) => {
+            cx.violation("rejected", sub, mcase_json(c), json!("compiles"), json!(rep));
+            return None;
+        }
+        Compiled::Ok(p) => p,
+    };
+    // marks: container 1, constant X_i i+2
+    let mut want: Vec<i32> = vec![MCase::L_MARK];
+    want.extend((0..c.n).filter(|i| !c.is_fn(*i)).map(MCase::mark));
+    let got: Vec<i32> = log.iter().map(|e| if let host::Ev::Mark(k) = e { *k } else { -1 }).collect();
+    let mut sorted = got.clone();
+    sorted.sort();
+    if sorted != want {
+        cx.violation("eval_count", sub, mcase_json(c), json!({"each once": want}), json!({"log": marks(&log)}));
+    } else {
+        let pos = |m: i32| got.iter().position(|x| *x == m).unwrap();
+        'order: for i in (0..c.n).filter(|i| !c.is_fn(*i)) {
+            for j in c.before(i) {
+                let mj = if j == c.n { MCase::L_MARK } else { MCase::mark(j) };
+                if pos(mj) > pos(MCase::mark(i)) {
+                    cx.violation(
+                        "eval_order",
+                        sub,
+                        mcase_json(c),
+                        json!(format!("e({mj}) before e({})", MCase::mark(i))),
+                        json!({"log": marks(&log)}),
+                    );
+                    break 'order;
+                }
+            }
+        }
+    }
+    let mut bad = vec![];
+    let mut outcome = mix(0x16, 0);
+    for round in 1..=2 {
+        for (name, want, touches) in c.probes() {
+            let got = call_u64(&mut p, &name);
+            cx.transitions(1);
+            match got {
+                Ok(g) => {
+                    outcome = mix(outcome, g);
+                    if g as i64 != want {
+                        bad.push(json!({"probe": name, "round": round, "expected": want, "observed": g,
+                                        "touches_container": touches}));
+                    }
+                }
+                Err(e) => bad.push(json!({"probe": name, "round": round, "expected": want, "observed": e,
+                                          "touches_container": touches})),
+            }
+        }
+    }
+    if !bad.is_empty() {
+        cx.violation(
+            "value",
+            sub,
+            mcase_json(c),
+            json!("every probe returns the reference value on both rounds of calls (a constant is one value)"),
+            json!({"wrong": bad, "compile_log": marks(&log)}),
+        );
+    }
+    let late = host::take_log();
+    if !late.is_empty() {
+        cx.violation("late_eval", sub, mcase_json(c), json!("nothing is logged after compile"), json!({"log_after_compile": marks(&late)}));
+    }
+    cx.outcome(outcome);
+    Some(outcome)
+}
+
 // ------------------------------------------------------------------ check
 
 struct C14;
@@ -747,6 +886,30 @@ impl Check for C14 {
         }
         let u = match u {
             AnyUnit::Graph(u) => u,
+            AnyUnit::Mut(u) => {
+                let env = Plain(host::runtime());
+                // observed values per graph configuration: its cases differ only in the
+                // names / name order (and, for n <= 2, position and type of the container)
+                let mut seen: std::collections::HashMap<(u64, usize, usize), (u64, bool)> = Default::default();
+                for sub in 0..u.subs() {
+                    let Some((cfg, c)) = u.decode(sub) else { continue };
+                    if !cx.case(sub) {
+                        continue;
+                    }
+                    if let Some(o) = run_mcase(&env, &c, sub, cx) {
+                        let e = seen.entry((cfg, c.container, c.lpos)).or_insert((o, false));
+                        if e.0 != o && !e.1 {
+                            e.1 = true;
+                            cx.count("mut:configurations_whose_values_depend_on_the_names", 1);
+                            cx.note(format!(
+                                "values depend on the names only: {}",
+                                c.source().replace('\n', " ")
+                            ));
+                        }
+                    }
+                }
+                return;
+            }
             AnyUnit::CycCtx(u) => {
                 let env = match host::runtime().with_context_type::<CtxT>() {
                     Ok(rt) => WithCtx(rt),
@@ -786,6 +949,12 @@ impl Check for C14 {
         }
         let u = match u {
             AnyUnit::Graph(u) => u,
+            AnyUnit::Mut(u) => {
+                return match u.decode(sub) {
+                    Some((_, c)) => mcase_json(&c),
+                    None => json!({"kind": "not a case", "unit": unit, "sub": sub.to_string()}),
+                };
+            }
             AnyUnit::CycCtx(u) => {
                 return match u.decode(sub) {
                     Some(c) => ccase_json(&c),
@@ -798,8 +967,23 @@ impl Check for C14 {
             None => json!({"kind": "not a case", "unit": unit, "sub": sub.to_string()}),
         }
     }
-    fn matches(&self, _f: &Finding, _v: &Violation) -> bool {
-        false
+    fn matches(&self, f: &Finding, v: &Violation) -> bool {
+        let c = &v.case;
+        match f.matcher.as_str() {
+            // A List / StringBuf constant is a shared mutable object: the program has
+            // a mutating edge into the container constant and the only thing wrong is
+            // the value of probes that touch the container.
+            "mutating_edge_into_container_constant" => {
+                v.class == "value"
+                    && c["family"] == "mut"
+                    && c["has_mutating_edge"] == true
+                    && v.observed["wrong"].as_array().is_some_and(|w| {
+                        !w.is_empty()
+                            && w.iter().all(|x| x["touches_container"] == true && x["observed"].is_u64())
+                    })
+            }
+            _ => false,
+        }
     }
     fn meta(&self, cfg: &Cfg) -> Meta {
         let sl: Vec<Value> = slices(cfg.tier)
@@ -812,18 +996,26 @@ impl Check for C14 {
             })
             .collect();
         Meta {
-            rule: "every labelled DAG on n declaration positions x constant/function per node x module (pkg / pkg.m) per node x reference form (family dag); x every back edge (u,v) with v reaching u or u == v (family cycle); x every node x k in 0..=2 functions between the node and the context variable (family ctx). A dag-family program is non-trivial when some constant transitively depends on another constant (its evaluation order is constrained); every cycle/ctx program is non-trivial by construction. In the ctx and cycctx families the one context read is additionally written in each access form of bounds.context_access_forms (method call on the context variable with and without arguments, as f-string receiver, call argument, operand, parenthesised receiver, method argument). Family cycctx: ring of L in {2,3} mutually recursive functions, one context read attached to ring member c0 directly or through 1-2 non-cycle functions (or detached from the ring), one constant entering the ring through each member in turn / calling each non-cycle function / mentioning nothing, x every declaration order of the k <= 5 items x every relative order of their interned names (k! assignments of spellings lying in pairwise different symbol shards) x name set (see bounds.cycctx for the per-tier pairing); every cycctx program is non-trivial".into(),
+            rule: "every labelled DAG on n declaration positions x constant/function per node x module (pkg / pkg.m) per node x reference form (family dag); x every back edge (u,v) with v reaching u or u == v (family cycle); x every node x k in 0..=2 functions between the node and the context variable (family ctx). A dag-family program is non-trivial when some constant transitively depends on another constant (its evaluation order is constrained); every cycle/ctx program is non-trivial by construction. In the ctx and cycctx families the one context read is additionally written in each access form of bounds.context_access_forms (method call on the context variable with and without arguments, as f-string receiver, call argument, operand, parenthesised receiver, method argument). Family cycctx: ring of L in {2,3} mutually recursive functions, one context read attached to ring member c0 directly or through 1-2 non-cycle functions (or detached from the ring), one constant entering the ring through each member in turn / calling each non-cycle function / mentioning nothing, x every declaration order of the k <= 5 items x every relative order of their interned names (k! assignments of spellings lying in pairwise different symbol shards) x name set (see bounds.cycctx for the per-tier pairing); every cycctx program is non-trivial. Family mut: container constant L (List[i32] / StringBuf) + n <= 3 u64 constants/functions over all labelled DAGs, each with access none/read/mutate to L; a mut program is non-trivial when some node accesses L".into(),
             assumptions: vec![
                 "constants and functions are i32-valued; each constant is e(10^i) + sum of its references, each function 10^i + sum of its references".into(),
                 "two modules (pkg and pkg.m); helper, getter and context-reading functions are declared after the enumerated nodes of their module".into(),
                 "the cycle family leaves out the two string-valued forms (fstring, method): function values depend on the depth parameter there".into(),
                 "no order is demanded among constants that do not depend on each other".into(),
+                "family mut: reference semantics = a constant is one value: every read of a List/StringBuf constant yields its initial value (so values cannot depend on declaration order, names, earlier compilations or earlier calls); mutating methods on a field of a record constant (R.l.push) and List.swap are not enumerated".into(),
+                "dependency chains are at most 5 items long; the recursion depth of the type checker's graph walks (stack overflow for chains of >~15 000 items declared top-down, audit V2) is outside these bounds".into(),
                 "programs predicted RejectCtx are parsed and type checked only (a wrongly accepted one would read a null context when compiled in full); field access on a context variable is not enumerated: context fields must be registered host types, which have no script-visible fields".into(),
                 "cycctx programs predicted to be rejected are parsed and type checked only (the rejecting stage); accepted ones are compiled and run in full".into(),
             ],
             bounds: json!({"slices": sl, "forms": FORMS, "context_distance_k": [0, 1, 2], "context_access_forms": model::ACCESS,
                            "context_type": "{ cv: i32 = 100000, cs: String = \"ab\" }",
                            "recursion_depths_called": [0, 1, 2],
+                           "mut": {"nodes_besides_container": [1, 2, 3], "dependencies": "all labelled DAGs", "kinds": "all 2^n",
+                                   "access_per_node": mutc::ACC, "containers": mutc::CONTAINERS,
+                                   "name_orders": cfg.tier.pick("n <= 2: all (n+1)!; n = 3: one order and its reverse per graph, in rotation over all 24", "all (n+1)!"),
+                                   "container_position_and_type": "n <= 2: all; n = 3: in rotation",
+                                   "mutate_form": "L.push(..) / let l = L; l.push(..) in rotation",
+                                   "rounds_of_calls": 2},
                            "cycctx": {
                                "configurations (cycle length, hops, attached)": match cfg.tier {
                                    Tier::Quick => cycctx::QUICK_CONFIGS.iter().map(|c| json!(cycctx::CONFIGS[*c])).collect::<Vec<_>>(),
@@ -842,6 +1034,27 @@ impl Check for C14 {
     fn preflight(&self, cfg: &Cfg) -> Result<(), String> {
         model::self_test(cfg.tier.pick(4, 5))?;
         cycctx::self_test()?;
+        mutc::self_test()?;
+        // read-only programs of the mut family must compile for both containers
+        let plain = Plain(host::runtime());
+        for container in 0..2 {
+            let c = MCase {
+                n: 2,
+                edges: 1 << 1, // X0 -> X1
+                kinds: 0b10,
+                access: vec![1, 1],
+                lpos: 1,
+                sigma: vec![2, 0, 1],
+                set: container,
+                container,
+                alias: false,
+            };
+            match plain.compile(&c.source(), "") {
+                Compiled::Ok(_) => {}
+                Compiled::Report(r, _) => return Err(format!("mut generator: {}\n{r}", c.source())),
+                Compiled::Panic(p) => return Err(format!("mut generator: {}\n{p}", c.source())),
+            }
+        }
         // every name set must be usable for every role: one accepted program per
         // (configuration, name set) has to compile
         let env = WithCtx(host::runtime().with_context_type::<CtxT>()?);
@@ -886,6 +1099,11 @@ impl Check for C14 {
         if agg.set_len("cycctx_name_sets") != cycctx::N_SETS as u64 && agg.machinery_errors.is_empty() && agg.crashes == 0 {
             agg.machinery_errors.push("cycctx: not every name set was used".into());
         }
+        if agg.set_len("mut_sigma") != 2 + 6 + 24 && agg.machinery_errors.is_empty() && agg.crashes == 0 {
+            agg.machinery_errors.push(format!("mut: {} (n, name order) pairs seen, expected 32", agg.set_len("mut_sigma")));
+        }
+        let n = agg.set_len("mut_sigma");
+        agg.counters.insert("mut_sigma_seen".into(), n);
         for what in ["cycctx_access", "ctx_access"] {
             if agg.set_len(what) != model::ACCESS.len() as u64 && agg.machinery_errors.is_empty() && agg.crashes == 0 {
                 agg.machinery_errors.push(format!("{what}: not every access form of the context read occurred"));
